@@ -437,6 +437,7 @@ def run(chk):
 
     # "Flush reports success only after all of this has happened": every configured signal is flushed (shared with C07)
     from . import c07
+    batcher.when_flushed_table(chk, P, "C12.flush")
     c07.end_to_end(chk, P, "C12.flush", only=("R5:OtlpInner::blocking_flush", "R5:Otlp::blocking_flush", "R5:otlp-transport"))
     common.builder_rules(chk, P, "C12", lambda b: b.crate == "emit_otlp" and ("Builder::" in b.key or "HttpContent::" in b.key), 10)
     # request grouping: the OTLP channel's clear() resets every field push() updates or len() reads (shared with C09)
